@@ -62,6 +62,16 @@ CHECKS = {
    text="Every history to depth 6 (thorough 8) over 11 object versions of three clusters (names and server-name lists that overlap, collide, change case, move between clusters, an object whose own name is another cluster's server name), deletions, and redelivery of any object whose attempt asked for a requeue; after every event 12 probe hosts (upper/lower case, with ports, unclaimed) are resolved through ExtraRequestInfoFactory + WithUpstreamInfo and through WrapGetConfigForClient / SNIVerifyOptions: a host never resolves to a cluster that does not claim it, an event on one cluster never changes the resolution (or stops the context) of a name resolving to another, names of a deleted cluster stop resolving and its context is cancelled, while no delivery was refused exactly the claimed names resolve (iff), and serving certificate, client-CA pool and verify options are those of the resolved cluster (base configuration otherwise).",
    ref="DESIGN.md §6 C10",
    note="Trusted: the harness as informer + single worker (lister store edited directly, add-only VerifSync hook), fake clientset, generated ECDSA test certificates; the TLS handshake itself is not performed."),
+ "C11": dict(cat="model_checking", engine="xstate",
+   technique="explicit-state BFS over object-version / delivery histories on the real controller with a differential oracle (gateway that saw the whole history vs fresh gateway given only the latest objects), delivery model bound to the real SyncQueue by a conformance run",
+   text="Histories are built from events that set one dimension of cluster a's object (4 server lists incl. a disabled endpoint, 5 policy lists, 6 flow-control sections, 7 annotation/feature-gate values incl. nil map, 3 logging modes, 5 TLS sections, 3 server-name lists), resync deliveries of an equal object, deletion and re-creation, a second cluster that takes or frees a contested server name, and redelivery of requeued (possibly superseded) objects at any later point. Searched: all dimensions together to depth 3 (thorough 4), each dimension alone to depth 4 (5), requeue-centred and coupled-dimension subspaces to depth 5 (6). In every quiescent state the fingerprint of both clusters (endpoints, disabled flags, probing, routing of 4 probe requests with flow-control identity and logging, every schema's configuration and admitted burst, the four feature gates, server names, TLS certificate / client CA / verify options, host resolution) must equal that of a fresh controller given only the latest objects.",
+   ref="DESIGN.md §6 C11",
+   note="Trusted: harness as informer + single worker; only versions accepted by ValidateUpstreamCluster + the feature-gate check take part; the conformance run of pkg/syncqueue (recorded in the evidence) showed unbounded redelivery of the same object; endpoint health and token-bucket fill level are not compared."),
+ "C16": dict(cat="exploration", engine="enum",
+   technique="bounded-exhaustive enumeration of UpstreamCluster objects (each section's boundary values around a valid base, products over coupled sections) through the real validator and admission plugin, with accept => apply-everywhere soundness checks on the real gateway and limiter server",
+   text="About 21 000 (thorough more) objects: every value of each section's alphabet (names, 13 server lists incl. unparseable URLs, client config incl. half/garbage/mismatched key pairs, CA data and 64 qps/burst/divisor triples, secure serving, every combination of the five flow-control members x 5 strategies, 288 policies, logging, feature-gate annotations) around a valid base plus products over servers x clientConfig, servers x policies, flowControl x policies. ValidateUpstreamCluster and the plugin's Validate must return without panic; every accepted object must be applied without error or panic by CreateClusterInfo, a second Sync, the controller's create and update path, a probe on each schema, and on the limiter server by the cluster handler, a report and an acquire; objects of the classes the property lists must be rejected.",
+   ref="DESIGN.md §6 C16",
+   note="Trusted: the value alphabets (boundary values of the validation clauses), fake clientsets; the gateway-side remote flow-control path for accepted global schemas is exercised in C09's rig."),
 }
 def manifest():
     checks = []
